@@ -129,6 +129,10 @@ impl Campaign for C14c {
         sc.default_program = Program { delay: 0, after: vec![], body, delay2: 0, finish };
         let seg = *g.pick(&[Seg::Whole, Seg::Whole, Seg::Fixed(4096), Seg::Random(3), Seg::PerMessage, Seg::Fixed(1), Seg::Fixed(3), Seg::Fixed(61)]);
         let mut steps = segment(&msgs, seg, 0, &mut g);
+        if index % 20 == 19 {
+            // the client resets the connection before sending anything (possibly before it is accepted)
+            steps.clear();
+        }
         steps.push(match g.below(4) {
             0 => ClientStep::Reset,
             1 => ClientStep::Close { budget: *g.pick(&[0usize, 100, 100_000]), reset_err: g.chance(1, 2) },
@@ -138,6 +142,7 @@ impl Campaign for C14c {
         sc.conns.push(ConnScript { open_at: SEC, steps: vec![ClientStep::Send(B(Req::get("c1r0").bytes())), ClientStep::AwaitFinals(1)], ..Default::default() });
         sc.programs.insert("c1r0".into(), Program::respond(200, b"fresh".to_vec()));
         sc.receivers = loop_receivers(g.usize(1, 2), if g.chance(1, 2) { Dispatch::Spawn } else { Dispatch::Inline });
+        let class = if index % 20 == 19 { "nothing_sent".to_string() } else { class };
         sc.note = format!("C14 index {} class={} good_first={}", index, class, good_first);
         sc
     }
